@@ -53,12 +53,17 @@ Single(d, j) ==
 Fresh(p) == "Zq" \o p
 RECURSIVE RenAll(_, _)
 RenAll(d, k) == IF k = 0 THEN d ELSE RenAll(Renamed(d, d.tmpl[k].name, Fresh(d.tmpl[k].name)), k - 1)
+\* a second spelling that shares no character with the original one ("any unused identifier")
+Fresh2(k) == "Zq" \o ToString(k)
+RECURSIVE RenAll2(_, _)
+RenAll2(d, k) == IF k = 0 THEN d ELSE RenAll2(Renamed(d, d.tmpl[k].name, Fresh2(k)), k - 1)
 Min(a, b) == IF a < b THEN a ELSE b
 
 \* one transformation applied to every declaration of a module (namespaces are entered)
 Transform(d, mode, j) ==
   CASE mode = "reversed" -> IF HasLists(d) THEN Reversed(d) ELSE d
     [] mode = "renamed"  -> IF Templated(d) THEN RenAll(d, Len(d.tmpl)) ELSE d
+    [] mode = "renamed2" -> IF Templated(d) THEN RenAll2(d, Len(d.tmpl)) ELSE d
     [] mode = "single"   -> IF HasLists(d) /\ NCombos(d) > 0 THEN Single(d, Min(j, NCombos(d))) ELSE d
 RECURSIVE MapDecls(_, _, _)
 MapDecls(items, mode, j) ==
@@ -67,6 +72,7 @@ MapDecls(items, mode, j) ==
      ELSE Transform(items[i], mode, j)]
 AllReversed(cst) == MapDecls(cst, "reversed", 0)
 AllRenamed(cst) == MapDecls(cst, "renamed", 0)
+AllRenamed2(cst) == MapDecls(cst, "renamed2", 0)
 AllSingle(cst, j) == MapDecls(cst, "single", j)
 
 \* ---- C15: removal of one declaration (namespaces are entered, not removed)
